@@ -140,7 +140,8 @@ let () =
           with Stdlib.Failure m -> (B.clear b; B.add_string b ("!driver-error " ^ m))
              | Stdlib.Stack_overflow -> (B.clear b; B.add_string b "!driver-error stack-overflow"));
          Stdlib.print_string (B.contents b);
-         Stdlib.print_char '\n'
+         Stdlib.print_char '\n';
+         Stdlib.flush Stdlib.stdout
        end
      done
    with Stdlib.End_of_file -> ());
